@@ -158,7 +158,7 @@ def build_binaries(name, sources, units, flags=None, extra_inputs=()):
         with open(done, 'w') as f:
             f.write('ok')
         sys.stderr.write('[nv] built %s (%d units) in %.1fs\n' % (name, len(units), time.time() - t0))
-        prune_cache(keep=12)
+        prune_cache(keep=40)
         return {u[0]: os.path.join(out_dir, u[0]) for u in units}
 
 
